@@ -411,7 +411,23 @@ func c19recursion(p *core.Prog, f *ssa.Function) (bool, string) {
 		}
 		n := core.Normalize(cnd)
 		if call, ok := n.V.(*ssa.Call); ok && n.True {
-			if g := core.Callee(&call.Call); g != nil && strings.Contains(strings.ToLower(g.Name()), "hasnext") {
+			// a helper that returns (index+1) < len(descriptors) of its own parameters, called with (descriptors, index)
+			if g := core.Callee(&call.Call); g != nil && len(call.Call.Args) == 2 && call.Call.Args[0] == ssa.Value(f.Params[2]) && call.Call.Args[1] == ssa.Value(f.Params[3]) {
+				core.Instrs(g, func(ins ssa.Instruction) {
+					if r, isR := ins.(*ssa.Return); isR {
+						if c19isHasNext(core.RetVals(r)[0], g.Params[0], g.Params[1]) {
+							hasNext = true
+						}
+					}
+				})
+			}
+		}
+		if n.True && c19isHasNext(n.V, f.Params[2], f.Params[3]) {
+			hasNext = true
+		}
+		// written negated: !(index+1 >= len) etc. is normalised by AsCmp
+		if m, ok := core.AsCmp(cnd); ok {
+			if m.Op == token.LSS && c19idxPlus1(m.X, f.Params[3]) && c19lenOf(m.Y, f.Params[2]) || m.Op == token.GTR && c19idxPlus1(m.Y, f.Params[3]) && c19lenOf(m.X, f.Params[2]) {
 				hasNext = true
 			}
 		}
@@ -430,4 +446,23 @@ func c19recursion(p *core.Prog, f *ssa.Function) (bool, string) {
 		return false, "the verdict of the next descriptor is not returned"
 	}
 	return true, "next descriptor consulted exactly on result == 0 && hasNext; its verdict returned"
+}
+
+func c19idxPlus1(v ssa.Value, idx *ssa.Parameter) bool {
+	b, ok := core.Resolve(v).(*ssa.BinOp)
+	return ok && b.Op == token.ADD && b.X == ssa.Value(idx) && core.IsIntConst(b.Y, 1)
+}
+
+func c19lenOf(v ssa.Value, list *ssa.Parameter) bool {
+	call, ok := core.Resolve(v).(*ssa.Call)
+	return ok && core.IsBuiltin(&call.Call, "len") && call.Call.Args[0] == ssa.Value(list)
+}
+
+// c19isHasNext: v is (idx+1) < len(list).
+func c19isHasNext(v ssa.Value, list, idx *ssa.Parameter) bool {
+	b, ok := core.Resolve(v).(*ssa.BinOp)
+	if !ok {
+		return false
+	}
+	return b.Op == token.LSS && c19idxPlus1(b.X, idx) && c19lenOf(b.Y, list) || b.Op == token.GTR && c19idxPlus1(b.Y, idx) && c19lenOf(b.X, list)
 }
